@@ -78,6 +78,18 @@ Example C19_limited2_of_4 :
      [{| c_block := 1; c_host := 0; c_replica := 0 |}]; [{| c_block := 1; c_host := 0; c_replica := 1 |}]].
 Proof. vm_compute. reflexivity. Qed.
 
+(** requirements combine by intersection: a semilattice with `One` at the bottom, `Unlimited`
+    at the top and `Host` below every `Limited` *)
+Theorem C19_intersect_semilattice : forall a b c,
+  intersect a b = intersect b a /\ intersect a (intersect b c) = intersect (intersect a b) c /\ intersect a a = a.
+Proof. intros a b c. split; [apply intersect_comm | split; [apply intersect_assoc | apply intersect_idem]]. Qed.
+Theorem C19_intersect_one_absorbs : forall a, intersect ROne a = ROne /\ intersect a ROne = ROne.
+Proof. exact intersect_one. Qed.
+Theorem C19_intersect_unlimited_neutral : forall a, intersect RUnlimited a = a /\ intersect a RUnlimited = a.
+Proof. exact intersect_unlimited. Qed.
+Theorem C19_intersect_host : forall a, a <> ROne -> intersect RHost a = RHost /\ intersect a RHost = RHost.
+Proof. exact intersect_host. Qed.
+
 Print Assumptions C19_forward_exactly_one.
 Print Assumptions C19_ports_depend_on_set_only.
 Print Assumptions C19_order_independent.
